@@ -61,7 +61,7 @@ def plan_C08(res, binary, hooked, tier, seed):
             "with the bytes consumed (13/13/5 header bytes + payload) compared on success; distinct = distinct (bytes, options)"), TRUSTED_LZMA
 
 def plan_C09(res, binary, hooked, tier, seed):
-    lzma_layer(res, binary, hooked, tier, seed, "C09", [])
+    lzma_layer(res, binary, hooked, tier, seed, "C09", ["--fab-probes", tq(tier, 90, 3000)])
     lzma2_layer(res, binary, hooked, tier, seed, "C09", 0)
     return ("behaviours of MC_LzmaDecoder whose last symbol is an out-of-window copy (distance > produced, > dictionary, huge; also via matched literal), at every position relative to the wrap; "
             "distinct = distinct (bytes, dict)"), TRUSTED_LZMA
@@ -171,7 +171,7 @@ def xz_layer(res, binary, hooked, tier, seed, prop, extra_args, limit):
     res.add_harness(rep, "every exported abstract file selected for %s serialised with harness CRCs -> xz_decompress; verdict = model verdict, output = concatenation of block contents" % prop)
 
 def plan_C03(res, binary, hooked, tier, seed):
-    xz_layer(res, binary, hooked, tier, seed, "C03", [], tq(tier, 20000, 2000000))
+    xz_layer(res, binary, hooked, tier, seed, "C03", ["--big-valid"], tq(tier, 20000, 2000000))
     return ("all well-formed supported files of the bounded model (block count 0..2, check None/CRC32/CRC64, size fields on/off, two header sizes, payload lengths mod 4 = 0..3, 1- and 2-byte varints); distinct = distinct file bytes"), TRUSTED_XZ
 
 def plan_C06(res, binary, hooked, tier, seed):
